@@ -11,7 +11,9 @@ CONSTANTS Family,     \* "ctl" | "ctlx" | "range" | "rangex" | "eff" | "scope" |
           MaxSize, TapeLen, MaxCalls, Budget,
           OpenFlags,  \* set of as-built flags that are open known findings
           Lazy,       \* compose the last size level lazily inside Init
-          TapeRep     \* 0: every tape up to TapeLen; r > 0: every non-empty pattern up to TapeLen repeated r times (C17)
+          TapeRep,    \* 0: every tape up to TapeLen; r > 0: (prefix, pattern) tapes: a prefix followed by a non-empty
+                      \*    pattern up to TapeLen repeated r times (C17: long stretches after the first yields)
+          PrefixLen   \* maximal length of the prefix (only with TapeRep > 0)
 
 Lit0 == [k |-> "lit", v |-> 0]
 VarA == [k |-> "var", n |-> "a"]
@@ -33,6 +35,9 @@ AScope == [simple |-> {Eff, DefA, IncA, [k |-> "callf"], Y(VarA)},
 AYf == [simple |-> {Eff, IncA, Y(VarA)} \cup YFs,
         inits |-> {None}, posts |-> {None} \cup YFs, conds |-> {T0},
         ifinits |-> {None}, kinds |-> {"if", "for"}, jumps |-> {"break", "continue"}, ranges |-> {}]
+\* delegation family without the recursive delegate: bounded delegation depth (C17 loop cases)
+YFsL == {YF(g, arg) : g \in 2..3, arg \in {[k |-> "lit", v |-> 1], VarA}}
+AYfL == [AYf EXCEPT !.simple = {Eff, IncA, Y(VarA)} \cup YFsL, !.posts = {None} \cup YFsL]
 APanic == [ACtl EXCEPT !.simple = @ \cup {[k |-> "panic"]}]
 \* the control-flow family with every switch form: default first / no default, type switch, tag-less switch
 \* effects everywhere, effectful yield expressions (C02: the interleaving is the observation)
@@ -54,7 +59,7 @@ ARange == [simple |-> {Y(VarK), Y(VarV), Mut("sset", 2), Mut("sapp", 0), Mut("st
            inits |-> {None}, posts |-> {None}, conds |-> {T0}, ifinits |-> {None},
            kinds |-> {"range", "if"}, jumps |-> {"break", "continue"}, ranges |-> Ranges]
 ARangeX == [ARange EXCEPT !.simple = @ \cup {Mut("nset", 0), Mut("strset", 0), Mut("sset", 0), Mut("aset", 0)}]
-A == CASE Family = "range" -> ARange [] Family = "rangex" -> ARangeX [] Family = "ctl" -> ACtl [] Family = "scope" -> AScope [] Family = "yf" -> AYf [] Family = "panic" -> APanic [] Family = "ctlx" -> ACtlX [] Family = "eff" -> AEff
+A == CASE Family = "range" -> ARange [] Family = "rangex" -> ARangeX [] Family = "ctl" -> ACtl [] Family = "scope" -> AScope [] Family = "yf" -> AYf [] Family = "yfl" -> AYfL [] Family = "panic" -> APanic [] Family = "ctlx" -> ACtlX [] Family = "eff" -> AEff
 
 \* Go scoping: `a := ...` at most once per block and never in the function's top block
 \* (a is a parameter there: "no new variables on left side of :=")
@@ -103,8 +108,8 @@ RepTape(p, n) == IF n = 0 THEN <<>> ELSE p \o RepTape(p, n - 1)
 Tab == BuildTab(A, <<>>, IF Lazy THEN MaxSize - 1 ELSE MaxSize)
 Small == UNION {Tab[m + 1].B["top"] : m \in 0..(IF Lazy THEN MaxSize - 1 ELSE MaxSize)}
 
-VARIABLES prog, tape0, w, wb, calls, obs, obsB
-vars == <<prog, tape0, w, wb, calls, obs, obsB>>
+VARIABLES prog, tape0, plen, w, wb, calls, obs, obsB
+vars == <<prog, tape0, plen, w, wb, calls, obs, obsB>>
 
 Start(p, tape, flags) == Spawn(MW0(<<p, D2, D3, D4>>, tape, Budget, flags), 1, 0, 2).w
 Init == /\ \/ \E raw \in Small : \E fin \in Finish(raw) : prog = Label(fin)
@@ -113,7 +118,8 @@ Init == /\ \/ \E raw \in Small : \E fin \in Finish(raw) : prog = Label(fin)
                        \/ \E m \in 1..(MaxSize - 1) : \E s \in Tab[m + 1].S["top"], r \in B(MaxSize - m, "top") : prog = Label(<<s>> \o r)
                        \/ \E s \in Composite(A, MaxSize, "top", B) : prog = Label(<<s>>))
         /\ Member(prog)
-        /\ tape0 \in (IF TapeRep = 0 THEN Tapes(TapeLen) ELSE {RepTape(p, TapeRep) : p \in Tapes(TapeLen) \ {<<>>}})
+        /\ IF TapeRep = 0 THEN tape0 \in Tapes(TapeLen) /\ plen = 0
+           ELSE \E pre \in Tapes(PrefixLen), p \in Tapes(TapeLen) \ {<<>>} : tape0 = pre \o RepTape(p, TapeRep) /\ plen = Len(pre)
         /\ w = Start(prog, tape0, {})
         /\ wb = Start(prog, tape0, OpenFlags)
         /\ calls = 0 /\ obs = <<>> /\ obsB = <<>>
@@ -129,7 +135,7 @@ MoveNext ==
         ELSE LET b == Adv(1, wb) IN
              /\ wb' = IF Panicked(wb) THEN wb ELSE b.w
              /\ obsB' = IF Panicked(wb) THEN obsB ELSE Append(obsB, Event(wb, b))
-  /\ calls' = calls + 1 /\ UNCHANGED <<prog, tape0>>
+  /\ calls' = calls + 1 /\ UNCHANGED <<prog, tape0, plen>>
 Next == MoveNext
 Spec == Init /\ [][Next]_vars
 
@@ -140,6 +146,6 @@ LazyStart == calls = 0 => w.log = <<>>
 DoneStaysDone == [][w.cos[1].done => (w'.cos[1].done /\ w'.log = w.log /\ w'.cos[1].cur = Zero)]_vars
 
 Done == calls = MaxCalls \/ (Panicked(w) /\ Panicked(wb))
-Emit == Done => PrintT(ToJson([fam |-> Family, prog |-> prog, tape |-> tape0, ideal |-> obs,
+Emit == Done => PrintT(ToJson([fam |-> Family, prog |-> prog, tape |-> tape0, plen |-> plen, ideal |-> obs,
                                same |-> obs = obsB, asbuilt |-> IF obs = obsB THEN <<>> ELSE obsB]))
 =============================================================================
